@@ -358,6 +358,7 @@ _c17_quick_base = [
     fam("basis-S1q-san", "san", "basis", {"fam": "S1q", "verify": 0}, weight=2),
     fam("copy-s1-san", "san", "copy", {"steps": 1}, weight=3),
     fam("lowp-SN1-san", "san", "lowp", {"fam": "SN1"}, weight=1),
+    fam("cpar-prod", "prod", "cpar", {}, weight=2, crash_props=["C17", "C16"]),   # glibc aborts on the double free a shared pricing array gives; cpar-san is in C16/C17 thorough
 ]
 _det_quick = [hist("hist-d2-prod", "prod", 2, weight=1), lp("S0q1-k1-prodl1", "prodl1", "S0q1", "k1", weight=2),
               fam("wr-MPS-k1-prod", "prod", "wr", {"fmt": "MPS", "k": 1, "chain": 1}, weight=1)]
@@ -369,7 +370,7 @@ PLANS["C17"] = {
              "rationals, bases and written files, and selected explorations are executed twice - 16 versus 13 shards (different item order per process), MALLOC_PERTURB_, shifted stack - with the XOR of the per-item "
              "hashes compared (a difference is located by a per-item transcript dump); thorough adds Valgrind memcheck (uninitialised values fatal) on the -O2 build"),
     "quick": [dict(r, range=[0, 8000]) if r["id"] == "copy-s1-san" else r for r in _c17_quick_base] + _det_quick + [twin(r) for r in _det_quick],
-    "thorough": _c17_quick_base + [hist("hist-d3r-san", "san", 3, reduced=1, weight=6), fam("copy-s2-san", "san", "copy", {"steps": 2}, weight=1, range=[0, 150000]),
+    "thorough": _c17_quick_base + [fam("cpar-san", "san", "cpar", {}, weight=3, crash_props=["C17", "C16"]), hist("hist-d3r-san", "san", 3, reduced=1, weight=6), fam("copy-s2-san", "san", "copy", {"steps": 2}, weight=1, range=[0, 150000]),
                                    lp("S0c-sanl1-default", "sanl1", "S0c", "default", weight=4), lp("T-san-default", "san", "T", "default", weight=3, opts={"fam": "T", "cfg": "default", "tscale": 30}),
                                    hist("hist-d2-valgrind", "prod", 2, weight=8, wrapper=VALGRIND, timeout=600),
                                    lp("S0q1-valgrind", "prodl1", "S0q1", "k1x", weight=4, wrapper=VALGRIND, timeout=600),
